@@ -25,6 +25,17 @@ func NewFromASTNode(astNode schema.ASTNode) *JSOAC {
 	}
 }
 
+// NewFromOrItemASTNode converts the stand-in node of an "or" item the way the items
+// of anyOf are converted: the node names a type, its value is not an example (as an
+// example the type name is not even JSON: {"type":"integer","example":integer}).
+func NewFromOrItemASTNode(astNode schema.ASTNode) *JSOAC {
+	node := newNode(astNode)
+	if p, ok := node.(*Primitive); ok {
+		p.Example = nil
+	}
+	return &JSOAC{root: node}
+}
+
 func (o *JSOAC) SetDescription(s string) {
 	o.description = &s
 }
